@@ -24,6 +24,7 @@ type c07Spec struct {
 	D        int      `json:"d,omitempty"`
 	Word     []string `json:"word,omitempty"`
 	Long     *lwSpec  `json:"long,omitempty"` // a long world (long.go) instead of words
+	Factor   int      `json:"factor,omitempty"` // global fertilisation factor in % + 1 (0 = the default 100 %)
 }
 
 var c07Ferts = []string{"KAS", "AHL", "H", "NPK", "ALZ", "AZU", "NIT", "RG", "SM", "RM", "RSG", "SG", "SSM", "HG", "HFM", "HM", "CK", "KSL", "BAK", "BA2", "URE", "RG1", "RG2", "RG3", "RG4", "RG5", "FM", "AS", "DAP"}
@@ -55,6 +56,14 @@ func c07Specs(tier string, seed int) []c07Spec {
 					out = append(out, c07Spec{Base: e1Base{Soil: so, GW: 99, InitW: 0.7, InitN: 30, ET: 3}, Fert: f, TillCM: cm, TillTyp: typ, Alpha: c07Alpha, D: d})
 				}
 				i++
+			}
+		}
+	}
+	// A2: every fertiliser type under the global fertilisation factors 0, 25, 50 and 250 % (bare soil, no tillage)
+	for k, f := range c07Ferts {
+		for _, fac := range []int{0, 25, 50, 250} {
+			if tier == "thorough" || (k+fac/25)%2 == 0 {
+				out = append(out, c07Spec{Base: e1Base{Soil: []string{"loam12", "sand20"}[k%2], GW: 99, InitW: 0.7, InitN: 30, ET: 3}, Fert: f, Alpha: c07Alpha[:3], D: 2, Factor: fac + 1})
 			}
 		}
 	}
@@ -298,6 +307,9 @@ func c07Run(raw json.RawMessage, c *mc.Ctx) {
 	first := 2 + warm
 	if sp.Fert != "" {
 		p.Fert = []proj.Fert{{Date: isoAdd(h0, first-1), Amount: 40, Kind: sp.Fert}}
+	}
+	if sp.Factor > 0 {
+		p.Config["Fertilization"] = fmt.Sprint(sp.Factor - 1)
 	}
 	if sp.TillCM > 0 && sp.Base.Crop == "" {
 		p.Till = []proj.Till{{Date: isoAdd(h0, first-1), Depth: sp.TillCM, Typ: sp.TillTyp}}
